@@ -259,6 +259,40 @@ func c06() []*Ob {
 					}
 				}
 			}},
+		{Prop: "C06", ID: "C06.5", Engine: "PAIR(key)", Floor: 1,
+			Desc: "a memo is filled under the key it is asked with: in the aggregation code (package frac/processor) a map entry that is written on the miss branch of a lookup of the same map uses the same key value as that lookup (a token value cached under a TID but looked up by a source index hands one group the label and the number of another)",
+			Check: func(c *Ctx) {
+				n := 0
+				for _, fn := range c.P.FuncsInPkg("frac/processor") {
+					for _, b := range fn.Blocks {
+						for _, in := range b.Instrs {
+							mu, ok := in.(*ssa.MapUpdate)
+							if !ok {
+								continue
+							}
+							for _, f := range FactsAt(b) {
+								e, isE := f.Cond.(*ssa.Extract)
+								if !isE || e.Index != 1 || f.Val {
+									continue
+								}
+								lk, isL := e.Tuple.(*ssa.Lookup)
+								if !isL || !lk.CommaOk || !SameValue(lk.X, mu.Map) {
+									continue
+								}
+								n++
+								if SameValue(lk.Index, mu.Key) {
+									c.Site(mu.Pos(), "%s fills the memo under the key it looked up", FuncName(fn))
+								} else {
+									c.Violation("pair:memo-key:"+FuncName(fn), mu.Pos(), "%s looks a memo up by one key and fills it under another: the entry is never found again under its own key and is served to whoever asks with the other one", FuncName(fn))
+								}
+							}
+						}
+					}
+				}
+				if n == 0 {
+					c.Undecided("pair:memo-key:none", token.NoPos, "no fill-on-miss memo found in frac/processor")
+				}
+			}},
 		{Prop: "C06", ID: "C06.4", Engine: "ENUM+DIV", Floor: 1,
 			Desc: "switch coverage: processor.evalAgg, seq's aggregate computation and proxyapi.validateAgg handle every aggregation function; the time-bin modulo of provideExtractTimeFunc runs only for interval > 0",
 			Check: func(c *Ctx) {
